@@ -10,11 +10,14 @@ import (
 	"hash/fnv"
 	"math/rand/v2"
 	"os"
+	"runtime"
 	"runtime/debug"
 	"sort"
 	"strconv"
 	"strings"
 	"sync"
+	"sync/atomic"
+	"time"
 )
 
 func envInt(name string, def int64) int64 {
@@ -99,6 +102,9 @@ type Rec struct {
 	viols   map[string]int
 	cur     string
 	curFile string
+
+	lastMark atomic.Int64
+	closed   atomic.Bool
 }
 
 const maxNT = 400000
@@ -114,7 +120,30 @@ func Open(prop string) *Rec {
 		}
 	}
 	r.emit(map[string]any{"t": "open", "prop": prop, "seed": Seed(), "tier": Tier()})
+	r.lastMark.Store(time.Now().UnixNano())
+	go r.stallDump()
 	return r
+}
+
+// stallDump is diagnostics only (never a verdict): if no case has been marked for
+// VERIF_STALL_S wall seconds (default 180) it writes the stacks of ALL goroutines - including
+// running ones, which a SIGQUIT dump cannot show - next to the event log, once.
+func (r *Rec) stallDump() {
+	limit := time.Duration(envInt("VERIF_STALL_S", 180)) * time.Second
+	for {
+		time.Sleep(5 * time.Second)
+		if r.closed.Load() {
+			return
+		}
+		if time.Since(time.Unix(0, r.lastMark.Load())) > limit {
+			buf := make([]byte, 64<<20)
+			n := runtime.Stack(buf, true)
+			if r.curFile != "" {
+				os.WriteFile(strings.TrimSuffix(r.curFile, ".cur")+".stall.txt", buf[:n], 0o644)
+			}
+			return
+		}
+	}
 }
 
 func (r *Rec) emit(m map[string]any) {
@@ -164,6 +193,7 @@ func (r *Rec) Sample(v any) {
 // Mark remembers the case being executed; heavy=true also writes it to a side file so a
 // process-fatal error (which recover() never sees) is attributable.
 func (r *Rec) Mark(desc string, heavy bool) {
+	r.lastMark.Store(time.Now().UnixNano())
 	r.mu.Lock()
 	r.cur = desc
 	r.mu.Unlock()
@@ -242,6 +272,7 @@ func PanicSite(st string) string {
 
 // Close flushes counters and the non-trivial key set and writes the "done" record.
 func (r *Rec) Close() {
+	r.closed.Store(true)
 	r.mu.Lock()
 	defer r.mu.Unlock()
 	keys := make([]string, 0, len(r.nt))
